@@ -26,7 +26,7 @@ ASSUMPTIONS = ['combinations whose meaning the repository does not define (metho
                'span/snapshot values) are checked for isolation only',
                'for *_end / *_capture stages only the number of effects per pass is asserted, not their timing']
 EXHAUSTIVE = ['stage x method_name x span x snapshot x log_msg x metrics (1024 sets) on both installation paths']
-REQUIRE = {'argument_sets': 1500, 'effects_compared': 4000, 'uninterpretable_sets': 200, 'companions_checked': 3000,
+REQUIRE = {'argument_sets': 1500, 'effects_compared': 4000, 'uninterpretable_sets': 200, 'unknown_metric_type_tracepoints': 10, 'companions_checked': 3000,
            'sampled_responses': 150}
 
 STAGES = [None, 'line_start', 'line_end', 'line_capture', 'method_start', 'method_end', 'method_capture', 'bogus_stage']
@@ -161,6 +161,8 @@ def install_via_wire(tps, rig):
     protos = []
     for tp in tps:
         metrics = [Metric(name='m_' + tp['id'], type=MetricType.COUNTER)] if tp['metrics'] else []
+        if tp['metrics'] == 'unknown_type':
+            metrics = [Metric(name='m_' + tp['id'], type=99)]
         protos.append(TracePointConfig(ID=tp['id'], path=tp['path'], line_number=tp['line'], args=tp['args'],
                                        watches=tp['watches'], metrics=metrics))
     rig.install(convert_response(protos))
@@ -387,6 +389,9 @@ def case_sampled(seed, out, spec, wd):
         tps.append({'id': 'tp%d' % k, 'path': base, 'line': line, 'args': args,
                     'watches': ['SCALE', 'k%d' % k] if r.chance(0.7) else [], 'metrics': r.chance(0.3),
                     'mark': ('mark%d ' % k) if 'log_msg' in args else '', 'bad': bad})
+        if path_kind == 'wire' and r.chance(0.08):
+            # a metric of a type this client does not know (a newer service): this tracepoint cannot be interpreted
+            tps[-1]['metrics'] = 'unknown_type'
     witness = {'tracepoints': [[t['id'], t['line'], t['args'], t['metrics']] for t in tps], 'install_path': path_kind}
     replay = replay_spec(spec, seed)
     effects, pushed = run_probe(wd, tps, path_kind, out, witness, replay)
@@ -397,8 +402,10 @@ def case_sampled(seed, out, spec, wd):
     total = 0
     for i, tp in enumerate(tps):
         placement, exp = classify(tp['args'], tp['metrics'])
-        if tp['args'].get('stage') in ('', 'LINE_START', 'method', 'bogus'):
+        if tp['args'].get('stage') in ('', 'LINE_START', 'method', 'bogus') or tp['metrics'] == 'unknown_type':
             placement = 'uninterpretable'
+            if tp['metrics'] == 'unknown_type':
+                out.count('unknown_metric_type_tracepoints')
         if placement == 'uninterpretable':
             out.count('uninterpretable_sets')
             continue
